@@ -313,14 +313,17 @@ no group is stuck at `adaptive_stop`, every finally solved group passes the opti
 every source that ended up in no group stays unlinked. -/
 theorem stepCheckA_ok {a : ACfg} {cfg : Cfg} {st : State} {t : Int} {dsts : List Pos}
     {labels : List Nat} {st' : State} {r f : Nat}
-    (h : stepCheckA a cfg st t dsts (some labels) = .ok st' r f) :
+    (h : stepCheckA a cfg st t dsts (some labels) = .ok st' r f false) :
     validWhy cfg st t dsts labels = none ∧ st' = nextState cfg st t dsts labels ∧
     ∀ n ∈ stepNets cfg st t dsts, ∃ fs, plan a cfg.B 64 0 n = some fs ∧
       (∀ g ∈ fs, finalOkB a cfg st labels g = true) ∧ orphansOkB st labels n fs = true := by
   unfold stepCheckA at h
   simp only at h
   split at h
-  · cases h
+  · -- capped step: the flag would be `true`
+    split at h
+    · cases h
+    · cases h
   · split at h
     · cases h
     · rename_i hraise
@@ -349,13 +352,33 @@ theorem stepCheckA_ok {a : ACfg} {cfg : Cfg} {st : State} {t : Int} {dsts : List
             simp only [Bool.and_eq_true, List.all_eq_true] at this
             exact ⟨fs, rfl, this.1, this.2⟩
 
+/-- every accepted step — capped or not — carries labels that are valid in the sense of C01 -/
+theorem stepCheckA_validWhy {a : ACfg} {cfg : Cfg} {st : State} {t : Int} {dsts : List Pos}
+    {labels : List Nat} {st' : State} {r f : Nat} {c : Bool}
+    (h : stepCheckA a cfg st t dsts (some labels) = .ok st' r f c) :
+    validWhy cfg st t dsts labels = none ∧ st' = nextState cfg st t dsts labels := by
+  unfold stepCheckA at h
+  simp only at h
+  split at h
+  · split at h
+    · cases h
+    · rename_i hv; cases h; exact ⟨hv, rfl⟩
+  · split at h
+    · cases h
+    · split at h
+      · cases h
+      · rename_i hv
+        split at h
+        · cases h
+        · cases h; exact ⟨hv, rfl⟩
+
 /-- adaptive linking keeps C01's validity: the C01 invariant step applies verbatim -/
 theorem stepCheckA_valid {a : ACfg} {cfg : Cfg} {st : State} {hist : List LLevel} {t : Int}
-    {dsts : List Pos} {labels : List Nat} {st' : State} {r f : Nat}
-    (hinv : Inv cfg st hist) (h : stepCheckA a cfg st t dsts (some labels) = .ok st' r f) :
+    {dsts : List Pos} {labels : List Nat} {st' : State} {r f : Nat} {c : Bool}
+    (hinv : Inv cfg st hist) (h : stepCheckA a cfg st t dsts (some labels) = .ok st' r f c) :
     LevelOK cfg hist { t := t, dsts := dsts, labels := labels } ∧
     Inv cfg st' ({ t := t, dsts := dsts, labels := labels } :: hist) := by
-  obtain ⟨hv, rfl, _⟩ := stepCheckA_ok h
+  obtain ⟨hv, rfl⟩ := stepCheckA_validWhy h
   exact step_preserves hinv hv
 
 /-! ### non-vacuity (tests, labelled as such) -/
